@@ -162,6 +162,14 @@ Holds(c) ==
             /\ Len(R.casts) = R.w * R.h
       [] R.kind = "hit" /\ c = "nearest" -> R.panic = "" /\ \A i \in 1..Len(R.rays) : RayOK(R.rays[i])
       [] R.kind = "shadow" /\ c = "lit" -> R.panic = "" /\ \A i \in 1..Len(R.pts) : ShadowPtOK(R.pts[i])
+      \* several point lights, listed in either order: the picture is the sum of the pictures under each group of
+      \* lights, for the tracer (entries 1..4) and for the ray caster (entries 5..8), to 2e-6 per pixel
+      [] R.kind = "shadow" /\ c = "lights" ->
+            R.panic = "" /\ \A i \in 1..Len(R.sums) :
+                LET v == R.sums[i] IN
+                /\ Len(v) = 8 /\ \A k \in 1..8 : v[k] >= 0
+                /\ \A o \in {0, 4} : /\ Abs(v[o + 3] - v[o + 1] - v[o + 2]) <= 2
+                                      /\ Abs(v[o + 4] - v[o + 3]) <= 2
       [] R.kind = "frame" /\ c = "frame" -> R.panic = "" /\ Len(R.inside) = 8
                                             /\ \A i \in 1..Len(R.inside) : R.inside[i] /\ R.infront[i]
       [] R.kind = "camera" /\ c = "caster" ->
@@ -169,7 +177,7 @@ Holds(c) ==
       [] R.kind = "camera" /\ c = "uncaster" ->
             \A i \in 1..Len(R.pts) : LET p == R.pts[i] IN p.uexact /\ p.ux = 1000 * p.x /\ p.uy = 1000 * p.y
       [] OTHER -> TRUE
-Clauses == {"once", "nearest", "lit", "frame", "caster", "uncaster"}
+Clauses == {"once", "nearest", "lit", "lights", "frame", "caster", "uncaster"}
 Fails == {c \in Clauses : ~Holds(c)}
 \* how many rays of a hit record were in general position and hit something (vacuity counter)
 Decided == IF R.kind = "hit"
